@@ -816,7 +816,10 @@ def oracle_fit_structure(mon, a0, b0, fl_rfi, fl_mef, out):
                     fin2 = np.isfinite(w)
                     # NumPy evaluates log/power of 16-bit integers in single precision by its own promotion rules:
                     # those forms are held to single-precision agreement, every other form to double precision
-                    rt = 2e-5 if fname in ('uint16', '>u2', 'int16') else 1e-12
+                    # (the error of exp(m*log x + b) grows with the size of the exponent: a degenerate fit of a
+                    # mis-clustered sample can have |m*log x| in the hundreds)
+                    E = abs(params[0]) * float(np.max(np.abs(np.log(xi)))) + abs(params[1]) + 1.0
+                    rt = max(2e-5, 8 * 1.2e-7 * E) if fname in ('uint16', '>u2', 'int16') else max(1e-12, 8 * 2.3e-16 * E)
                     mon.chk(got.shape == w.shape and bool(np.all(np.abs(got[fin2] - w[fin2]) <= rt * (np.abs(w[fin2]) + params[2]) + 1e-300)),
                             'fit:curve-depends-on-input-form', curve=nm, form=fname, **d)
                 i = len(xi) // 2
